@@ -4,7 +4,7 @@ from props.m2common import *  # noqa: F401,F403
 from props.m2common import g, sx, rng_for, fl, close, same, is_err, env_points, ref_value_at
 
 PID = "C09"
-KERNELS = ['K_segment_step', 'K_scale', 'K_value_at', 'K_env_reads', 'K_average']   # translated from /repo on every run, tied to the model by coq/Gen/<name>_eq.v
+KERNELS = ['K_segment_step', 'K_scale', 'K_value_at', 'K_env_reads', 'K_average', 'K_env_chain']   # translated from /repo on every run, tied to the model by coq/Gen/<name>_eq.v
 RUNNER = "impl_m2.py"
 N = {"quick": 1200, "thorough": 40000}
 LEVEL_RULE = ("envelopes as C08; per case an interval a <= m <= b with ends on control points, strictly inside the same or different "
